@@ -386,6 +386,10 @@ fn parts(tier: Tier) -> Vec<SPart> {
     c5.extend(gen::cfgs(&ma[..ma.len() - 1], &[d], &on, &off));
     v.push(SPart { part: Part { name: "ES-B sigma10=5", family: Family::Over { alpha: SIGMA10.to_vec(), min: 5, max: 5 }, cfgs: c5 }, strong: true });
     v.push(SPart {
+        part: Part { name: "ES-B2 sigma5 6..8", family: Family::Over { alpha: vec![b'A', b'a', b'1', b'*', 0x80], min: 6, max: 8 }, cfgs: gen::cfgs(&[ALL_MODES], &[d], &on, &off) },
+        strong: true,
+    });
+    v.push(SPart {
         part: Part { name: "ES-F macro shapes", family: gen::es_f(2), cfgs: gen::cfgs(&[ALL_MODES, 1], &[d], &both, &both) },
         strong: true,
     });
